@@ -415,9 +415,23 @@ def export_case(spec):
     out = M.run_export(dat, geo, kw)
     res['lines'].append(('export', '\t'.join(['exp', '0', M.hx(''), M.hx('')] + base),
                          {'eos': out['eos'], 'rocks': out['rocks'], 'srcs': out['srcs'], 'init': out['init'], 'bdy': out['bdy']}))
+    if 'src_ctx' in out:
+        res['lines'].append(('export-source-values', '\t'.join(['src', '0', M.hx(''), M.hx('')] + base + M.source_fields(ab, out['src_ctx'])), {'src_full': out['src_full']}))
     res['lines'].append(('block-order', '\t'.join(M.geom_wire(geo)), 'OK\t' + ','.join(M.hx(n) for n in geo.block_name_list)))
     res['info'] += ['route:' + spec['route'], 'json:' + ('ok' if out['full'] else 'raised'), 'atm:%d' % spec['geo']['atmos_type'],
                     'order:%s' % spec['geo']['block_order']]
+    # ---- mesh file name, rock type properties copied, cell lists in geometry order
+    if out['full']:
+        j = out['json']
+        if j['mesh'].get('filename') != 'mesh.exo': fail('mesh_json:filename', repr(j['mesh'].get('filename')), "'mesh.exo'")
+        for rt, e in zip(dat.grid.rocktypelist, j['rock']['types']):
+            dry = rt.dry_conductivity if (rt.dry_conductivity is not None and rt.dry_conductivity > 0.0) else rt.conductivity
+            want = {'name': rt.name, 'density': rt.density, 'porosity': rt.porosity, 'permeability': list(rt.permeability[:3]),
+                    'wet_conductivity': rt.conductivity, 'specific_heat': rt.specific_heat, 'dry_conductivity': dry}
+            got = {k: (list(e[k]) if k == 'permeability' else e[k]) for k in want if k in e}
+            if got != want: fail('rocks_json:rock-properties', repr(got)[:300], repr(want)[:300]); break
+            if any(a >= b for a, b in zip(e['cells'], e['cells'][1:])): fail('rocks_json:cells-not-increasing', repr(e['cells'][:20]), 'cell indices in geometry order, each once'); break
+        if len(j['rock']['types']) != len(dat.grid.rocktypelist): fail('rocks_json:rock-properties', '%d entries' % len(j['rock']['types']), 'one entry per rock type, in order')
     # ---- the export does not depend on earlier calls and hands out nothing it keeps: wreck the first result, call again
     if out['full']:
         import copy
@@ -440,6 +454,46 @@ def export_case(spec):
             fail('json:result-depends-on-earlier-calls', 'second call differs near ...%s' % again[max(0, k - 60):k + 60], 'the same export: ...%s' % first[max(0, k - 60):k + 60])
         if raw_state(dat) != state0: fail('json:changes-the-model', 'the model differs after json()', 'the export leaves the model as it was')
         res['info'].append('json-twice')
+    # ---- source values: every numeric leaf of a source is one of its own generator's values (or a constant of the export)
+    if isinstance(out.get('src_full'), list):
+        from fractions import Fraction
+        gens = [g for g in dat.generatorlist if g.type != 'TMAK']
+        consts = {Fraction(550000), Fraction(1450000)}
+        def leaves(v):
+            if isinstance(v, dict):
+                for x in v.values(): yield from leaves(x)
+            elif isinstance(v, list):
+                for x in v: yield from leaves(x)
+            elif isinstance(v, Fraction): yield v
+        for src, g in zip(out['src_full'], gens):
+            own = {Fraction(float(x)) for x in [g.gx, g.ex, g.fg] + ([g.hg] if g.hg is not None else []) + list(g.time) + list(g.rate) + list(g.enthalpy)}
+            own |= {abs(x) for x in own} | consts | {Fraction(k) for k in range(0, 6)}
+            body = {k: v for k, v in src.items() if k != 'cell'}
+            bad = [x for x in leaves(body) if x not in own]
+            if bad:
+                fail('generators_json:source-value-not-own', 'source %r of generator (%r, %r, %s): %r' % (src.get('name'), g.block, g.name, g.type, [float(x) for x in bad[:4]]),
+                     "a source carries its own generator's rate / enthalpy / table values"); break
+            F = lambda x: Fraction(float(x))
+            tracer_src = out['src_ctx'][0] and g.type in ('COM2', 'TRAC')
+            if g.type in ('MASS', 'MASD', 'HEAT', 'COM1', 'COM2', 'COM3', 'COM4', 'COM5', 'WATE', 'AIR ', 'TRAC', 'NACL') and not tracer_src:
+                inj = g.type != 'MASD' and (g.gx > 0 or (bool(g.time) and any(r > 0 for r in g.rate)))
+                if not (g.time and g.rate) and src.get('rate') != F(g.gx):
+                    fail('generators_json:rate-not-GX', 'source %r (%s): rate %r' % (src.get('name'), g.type, src.get('rate')), 'rate = GX = %r' % g.gx); break
+                if inj and g.type != 'HEAT' and not (g.time and g.enthalpy) and src.get('enthalpy') != F(g.ex):
+                    fail('generators_json:enthalpy-not-EX', 'source %r (%s): enthalpy %r' % (src.get('name'), g.type, src.get('enthalpy')), 'injection enthalpy = EX = %r' % g.ex); break
+                comp = {'MASS': 1, 'MASD': 1, 'HEAT': out['src_ctx'][1], 'COM1': 1, 'COM2': 2, 'COM3': 3, 'COM4': 4, 'COM5': 5, 'WATE': 1, 'AIR ': 2, 'TRAC': 2, 'NACL': 3}[g.type]
+                if inj and src.get('component') != Fraction(comp):
+                    fail('generators_json:component', 'source %r (%s): component %r' % (src.get('name'), g.type, src.get('component')), 'component %d' % comp); break
+                if not inj and 'enthalpy' in src and not g.enthalpy:
+                    fail('generators_json:production-with-enthalpy', 'source %r (%s, GX %r)' % (src.get('name'), g.type, g.gx), 'a producing source has no injection enthalpy'); break
+            if g.type == 'DELV' and (src.get('deliverability', {}).get('productivity') != F(g.gx) or src.get('direction') != ('production' if g.gx >= 0 else 'injection')):
+                fail('generators_json:delv', repr(src)[:200], 'productivity GX, production for GX >= 0, injection otherwise'); break
+            if g.type == 'RECH' and src.get('enthalpy') != F(g.ex) and not g.enthalpy:
+                fail('generators_json:enthalpy-not-EX', 'recharge source %r: enthalpy %r' % (src.get('name'), src.get('enthalpy')), 'EX = %r' % g.ex); break
+            if g.time and g.type not in ('DELG', 'DMAK', 'DMAT', 'DELT', 'DELW') and g.rate and not (out['src_ctx'][0] and g.type in ('COM2', 'TRAC')):
+                want = [[Fraction(float(a)), Fraction(float(b))] for a, b in zip(g.time, g.rate)]
+                if src.get('rate') != want: fail('generators_json:rate-table', repr(src.get('rate'))[:200], 'the generator\'s own (time, rate) table'); break
+        res['info'].append('source-values:%d' % min(9, len(gens)))
     # ---- the export as a whole: a boundary block none of whose neighbours is an interior block has no faces
     #      (an IndexError elsewhere in boundaries_json, e.g. default_incons shorter than the EOS needs, is the caller's)
     if not out['full'] and out.get('json_where') == 'boundaries_json' and out.get('json_exc') == 'IndexError' and 'normals' in out.get('json_line', ''):
@@ -596,6 +650,16 @@ def absorb(ctx, exe, kind, specs, results, label=''):
         out = vf.run_driver(exe, lines, shards=NSHARD if len(lines) > 400 else 1)
         per = Counter()
         for (name, spec, impl), case, model in zip(meta, lines, out):
+            if name == 'export-source-values':
+                per[name] += 1
+                b = impl['src_full']
+                try: a = M.parse_model_json(model[3:]) if model.startswith('OK') else model
+                except Exception as e: a = 'unparsable model line: %r' % e
+                if a != b:
+                    diff = next(('source %d: model %r | implementation %r' % (i, x, y) for i, (x, y) in enumerate(zip(a, b)) if x != y), 'model %r | implementation %r' % (a, b)) \
+                        if isinstance(a, list) and isinstance(b, list) else 'model %r | implementation %r' % (a, b)
+                    ctx.disagreement(name, {'spec': spec, 'difference': str(diff)[:1500]}, str(a)[:2000], str(b)[:2000])
+                continue
             if name == 'export':        # one driver line, five compared pieces
                 mp = model.split(' | ')
                 if len(mp) != 5: mp = [model] * 5
